@@ -314,9 +314,10 @@ impl Sched {
             }
             _ => {}
         }
-        if is_acquire(ev.op) && st.record_events {
-            st.events.push(json!({"th": t, "op": "acquired", "obj": ev.obj}));
+        if st.record_events && matches!(ev.op, Op::Unlock | Op::UnlockRead) {
+            st.events.push(json!({"th": t, "op": format!("{:?}", ev.op), "site": site_str(ev), "obj": ev.obj}));
         }
+        let _ = is_acquire(ev.op);
         st.last_progress = Instant::now();
     }
 
